@@ -73,6 +73,30 @@ def _grec(fn):
     return grishagin_record(fn)
 
 
+def grishagin_screen(fn):
+    """Refutation screen (sound, cheap): a grid + local search for a point whose observed value beats the declared minimum by more than
+    the tolerance.  An observed value is a fact; the acceptance certificate (quadtree) is what proves the absence of such points."""
+    from iOpt.problems.grishagin import Grishagin
+    from scipy.optimize import minimize
+    p = Grishagin(fn)
+    _sibling = Grishagin(fn % 100 + 1)
+    F = p.function
+    f = lambda x, y: float(F.Calculate(np.array([x, y], dtype=np.double)))     # noqa: E731
+    opt = [float(t) for t in p.knownOptimum[0].point.floatVariables]
+    optv = float(p.knownOptimum[0].functionValues[0].value)
+    fobs = f(opt[0], opt[1])
+    xs = np.linspace(0.0, 1.0, 61)
+    cand = sorted((f(float(a), float(b)), float(a), float(b)) for a in xs for b in xs)[:4]
+    best = (fobs, opt[0], opt[1])
+    for (_, a, b) in cand:
+        nm = minimize(lambda z: f(min(max(z[0], 0.0), 1.0), min(max(z[1], 0.0), 1.0)), [a, b], method="Nelder-Mead", options={"xatol": 1e-8, "fatol": 1e-11})
+        xa, xb = min(max(nm.x[0], 0.0), 1.0), min(max(nm.x[1], 0.0), 1.0)
+        v = f(xa, xb)
+        if v < best[0]:
+            best = (v, xa, xb)
+    return {"fn": fn, "optv": optv, "fobs": fobs, "best": best, "opt": opt}
+
+
 def strongin_refutation_samples(ctx, n=20000):
     """StronginC3: no acceptance certificate (the constrained minimum lies on the boundary of constraint 2); feasible sample points
     must not beat the declared value by more than the tolerance, the declared point must be (nearly) feasible and attain the value."""
@@ -133,6 +157,17 @@ def run_2d(ctx, counts, undecided, instances):
                 undecided.append(("Grishagin", v["fn"], "leaves not excluded", v["bad"]))
             else:
                 counts["ok" if not hard else "violated"] += 2
+    # every Grishagin function: refutation screen (in the quick tier the quadtree certificate is built for one function only)
+    with mp.get_context("fork").Pool(16) as pool:
+        screens = pool.map(grishagin_screen, list(range(1, 101)), chunksize=4)
+    screened = 0
+    for sc in screens:
+        screened += 1
+        tol = TVREL * max(1.0, abs(sc["optv"]))
+        if abs(sc["fobs"] - sc["optv"]) > 1e-4:
+            report(ctx, "C10 family=Grishagin member=%d clause=DeclaredValue" % sc["fn"], sc)
+        elif sc["best"][0] < sc["optv"] - tol:
+            report(ctx, "C10 family=Grishagin member=%d clause=PointBelowDeclaredMinimum" % sc["fn"], sc)
     # StronginC3
     st, optv = strongin_refutation_samples(ctx, 4000 if qk else 60000)
     instances["StronginC3"] = 1
@@ -146,5 +181,5 @@ def run_2d(ctx, counts, undecided, instances):
     else:
         counts["undecided"] += 2
         undecided.append(("StronginC3", 0, "no acceptance certificate: constrained minimum on a constraint boundary; refutation sampling only", st["feasible_samples"]))
-    return {"grishagin_functions": len(fns), "grishagin_leaves_checked": leaves, "strongin_c3": {k: v for k, v in st.items() if k != "lowest_feasible"},
+    return {"grishagin_functions_screened_for_refutations": screened, "grishagin_functions": len(fns), "grishagin_leaves_checked": leaves, "strongin_c3": {k: v for k, v in st.items() if k != "lowest_feasible"},
             "strongin_c3_lowest_feasible_value": st["lowest_feasible"][0] if st["lowest_feasible"] else None}
